@@ -383,7 +383,11 @@ func runReaderHistory(cs *drv.Case, ops []rOp, spec srcSpec, o readerOpts) (nont
 				sawTail = true
 				cs.C.Obs("releases with unread buffered tail", 1)
 			}
-			if err := rd.Release(nil); err != nil {
+			var relArg error
+			if cs.R.Intn(3) == 0 {
+				relArg = io.ErrClosedPipe // Release's argument is informational: behaviour must not depend on it
+			}
+			if err := rd.Release(relArg); err != nil {
 				fail("reader-release-error", i, "Release returned %v", err)
 			}
 			held = held[:0]
